@@ -153,6 +153,13 @@ def const_body_expr(crate, name):
 def duration_positive(crate, e, ex=None):
     """Is the Duration expression provably > 0 ?  returns (bool, description)"""
     e = strip_ref(e)
+    if e[0] == "const" and isinstance(e[1], str) and e[1].startswith("const zvt_feig_terminal::") and \
+            e[1] != "const zvt_feig_terminal::stream::TIMEOUT":
+        # a named constant (`const RETRY_PAUSE: Duration = Duration::from_secs(2)`): judged by its body
+        body = const_body_expr(crate, e[1][len("const "):])
+        if body is not None and body != e:
+            ok, why = duration_positive(crate, body, ex)
+            return ok, "%s = %s" % (e[1].rsplit("::", 1)[-1], why)
     if e == ("const", "const zvt_feig_terminal::stream::TIMEOUT"):
         body = const_body_expr(crate, "zvt_feig_terminal::stream::TIMEOUT")
         if body and body[0] == "call" and body[1].startswith("core::time::Duration::from_") and body[2] and \
